@@ -86,6 +86,9 @@ def signature(func, variadic=True, markup=True, safe=False):
             p_kwds = func.keywords or {} # dict of default kwd values
             func = func.func
             identified = True
+            if not inspect.ismethod(func) and not inspect.isfunction(func) \
+               and hasattr(func, '__call__') and not hasattr(func, '__name__'):
+                func = func.__call__ # partial of a callable instance
         except AttributeError:
             if hasattr(func, '__call__') and not hasattr(func, '__name__'):
                 func = func.__call__ # treat callable instance as __call__
@@ -200,6 +203,9 @@ def validate(func, *args, **kwds):
             func = func.func
             p_required = set(p_named) - set(p_defaults)
             identified = True
+            if not inspect.ismethod(func) and not inspect.isfunction(func) \
+               and hasattr(func, '__call__') and not hasattr(func, '__name__'):
+                func = func.__call__ # partial of a callable instance
         except AttributeError:
             if hasattr(func, '__call__') and not hasattr(func, '__name__'):
                 func = func.__call__ # treat callable instance as __call__
